@@ -302,9 +302,27 @@ type shardOut struct {
 	err    string
 	crash  string // id of the case being evaluated when the worker died
 	output string
+	died   bool
 }
 
-func runShard(bin, prop, tier, fl string, shard, n int, seed int64, budget string, only string, memKB int, gomax int) shardOut {
+// runShardRestarting runs a shard; for C06 a worker that the library brought down is
+// restarted after the fatal case (its checkpointed counts are kept), so that one crash
+// does not hide the rest of the enumeration.
+func runShardRestarting(bin, prop, tier, fl string, shard, n int, seed int64, budget string, only string, memKB int, gomax int) []shardOut {
+	var outs []shardOut
+	resume := ""
+	for attempt := 0; attempt < 40; attempt++ {
+		o := runShard(bin, prop, tier, fl, shard, n, seed, budget, only, memKB, gomax, resume)
+		outs = append(outs, o)
+		if !o.died || prop != "C06" || o.crash == "" || o.crash == resume {
+			break
+		}
+		resume = o.crash
+	}
+	return outs
+}
+
+func runShard(bin, prop, tier, fl string, shard, n int, seed int64, budget string, only string, memKB int, gomax int, resume string) shardOut {
 	work := filepath.Join(verifDir, "work")
 	os.MkdirAll(work, 0o755)
 	tag := fmt.Sprintf("%s-%s-%d", prop, fl, shard)
@@ -321,6 +339,9 @@ func runShard(bin, prop, tier, fl string, shard, n int, seed int64, budget strin
 		"-out", outF, "-side", sideF, "-budget", budget, "-flavour", fl}
 	if only != "" {
 		args = append(args, "-only", only)
+	}
+	if resume != "" {
+		args = append(args, "-resume", resume)
 	}
 	if strings.HasPrefix(fl, "sched") {
 		args = append([]string{"-test.run", "^TestWorker$", "-test.timeout", "0"}, args...)
@@ -361,7 +382,8 @@ func runShard(bin, prop, tier, fl string, shard, n int, seed int64, budget strin
 			so.err = "bad result json: " + jerr.Error()
 		}
 	}
-	if so.res == nil {
+	if so.res == nil || (err != nil && !strings.HasPrefix(fl, "sched")) {
+		so.died = true
 		if sb, e2 := os.ReadFile(sideF); e2 == nil {
 			so.crash = string(sb)
 		}
@@ -436,7 +458,7 @@ func runCheck(prop, tier, only string) int {
 			jobs = append(jobs, job{fl, s})
 		}
 	}
-	outs := make([]shardOut, len(jobs))
+	outLists := make([][]shardOut, len(jobs))
 	sem := make(chan struct{}, 15)
 	var wg sync.WaitGroup
 	gomax := 0
@@ -453,19 +475,38 @@ func runCheck(prop, tier, only string) int {
 			if only != "" {
 				ns = 1
 			}
-			outs[i] = runShard(bins[j.fl], prop, tier, j.fl, j.shard, ns, seed, budget, only, sp.MemKB, gomax)
+			outLists[i] = runShardRestarting(bins[j.fl], prop, tier, j.fl, j.shard, ns, seed, budget, only, sp.MemKB, gomax)
 		}(i, j)
 	}
 	wg.Wait()
+	var outs []shardOut
+	var outJobs []job
+	for i, l := range outLists {
+		for _, o := range l {
+			outs = append(outs, o)
+			outJobs = append(outJobs, jobs[i])
+		}
+	}
 
 	// aggregate
 	agg := vk.Result{Property: prop, Tier: tier, Exhaustive: true, ViolCount: map[string]int64{}, Groups: map[string]int64{}, Outcomes: map[string]int64{}}
 	transcripts := map[string]map[string]string{}
 	var harnessProblems []string
 	for i, o := range outs {
-		j := jobs[i]
+		j := outJobs[i]
+		if o.died && o.crash != "" && prop == "C06" {
+			// a dying worker is the C06 violation itself: attribute it to the current case
+			key := "C06/process-abort/" + crashKey(o.crash, o.output)
+			agg.ViolCount[key]++
+			if agg.ViolCount[key] <= 3 {
+				agg.Violations = append(agg.Violations, vk.Violation{Key: key, Case: o.crash, Detail: "worker process died while decoding this input: " + headTail(o.output, 600, 300)})
+			}
+		}
 		if o.res == nil {
 			if o.crash != "" && prop == "C06" {
+				continue
+			}
+			if false {
 				// a dying worker is the C06 violation itself: attribute it to the current case
 				agg.ViolCount["C06/process-abort"]++
 				agg.Violations = append(agg.Violations, vk.Violation{Key: "C06/process-abort/" + crashKey(o.crash, o.output), Case: o.crash, Detail: "worker process died while decoding this input: " + tail(o.output, 800)})
